@@ -578,7 +578,21 @@ def _expand(facts, call, cal, crec, policy, stack, depth, awaited):
             return None
         body = body['body']
     elif body.get('k') == 'Closure' and 'async fn body' in (body.get('ty') or ''):
-        return None       # an async fn called without .await at this site: the future is a value, leave the call alone
+        # an async fn called without .await at this site: the call evaluates the arguments and moves them into the future, nothing
+        # else; the body runs where the future is driven.  `helper(a, b)` is therefore `{ let p = a; let q = b; async move { body } }`
+        # for every async fn (that is its desugaring): the parameters are bound here, the value of the block is the coroutine
+        # closure of the helper (`return` / `?` inside it leave the coroutine, so they are not retargeted)
+        blk_id = 'inl' + suf
+        _rename(body, suf, blk_id)
+        _rename(params, suf, blk_id, in_closure=True)
+        args = call_args(call)
+        if len(params) != len(args):
+            return None
+        stmts = [{'k': 'Let', 'pat': p, 'init': a, 'sp': call.get('sp'), 'inlined_param': True} for p, a in zip(params, args)]
+        if depth > 0:
+            body['body'] = _inline_node(facts, body['body'], policy, stack + (cal,), depth - 1)
+        return {'k': 'Block', 'id': blk_id, 'sp': call.get('sp'), 'ty': body.get('ty'), 'stmts': stmts, 'expr': body,
+                'inlined_from': cal, 'inlined_future': True, 'rules': None}
     blk_id = 'inl' + suf
     _rename(body, suf, blk_id)
     _rename(params, suf, blk_id, in_closure=True)
@@ -636,6 +650,20 @@ def _inline_node(facts, n, policy, stack, depth):
         return [_inline_node(facts, x, policy, stack, depth) for x in n]
     if not isinstance(n, dict):
         return n
+    if n.get('k') == 'Await' and depth > 0 and isinstance(n.get('e'), dict) and n['e'].get('k') in ('Call', 'MethodCall'):
+        # an awaited call of an async helper is expanded as a whole (the body runs here); only the call's own operands are visited
+        # first, so that the call is not taken for a future handed on as a value (below)
+        cal, crec = _callee_rec(facts, n['e'], policy, stack)
+        if crec is not None and crec['body'].get('k') == 'Closure':
+            call = n['e']
+            for key, v in list(call.items()):
+                if key != 'sp' and isinstance(v, (dict, list)):
+                    call[key] = _inline_node(facts, v, policy, stack, depth)
+            r = _expand(facts, call, cal, crec, policy, stack, depth, awaited=True)
+            if r is not None:
+                r['ty'] = n.get('ty')
+                return r
+            return n
     for key, v in list(n.items()):
         if key == 'sp':
             continue
@@ -644,13 +672,6 @@ def _inline_node(facts, n, policy, stack, depth):
     k = n.get('k')
     if depth <= 0:
         return n
-    if k == 'Await' and n['e'].get('k') in ('Call', 'MethodCall'):
-        cal, crec = _callee_rec(facts, n['e'], policy, stack)
-        if crec is not None:
-            r = _expand(facts, n['e'], cal, crec, policy, stack, depth, awaited=True)
-            if r is not None:
-                r['ty'] = n.get('ty')
-                return r
     if k in ('Call', 'MethodCall'):
         cal, crec = _callee_rec(facts, n, policy, stack)
         if crec is not None:
